@@ -9,7 +9,9 @@
 (*        pages 16 W with data / 17 R / 18 absent): boundary and 64-bit arguments,  *)
 (*        ranges that end at / cross a page edge, wrap 2^32, alias modulo 2^32;     *)
 (*  Inv   invoke: program x initial counter x gas (0.., 2^63-1, 2^63, 2^64-1), twice *)
-(*        (resume), then expunge.                                                   *)
+(*        (resume), then expunge;                                                   *)
+(*  Must  three fixed scripts walking one / two machines through every call's main  *)
+(*        branches (present in both tiers whatever the seed).                       *)
 (* The generator consults the specification only to keep `pages` from allocating    *)
 (* gigabytes in the node under test (requests the spec answers OK for > 8 pages).   *)
 EXTENDS HostRefineOps, Json
@@ -81,7 +83,22 @@ InvAll == UNION {{[tag |-> "inv", ops |-> InvOps(k, i, g)] : i \in {A(0), A(1), 
                                                               g \in Gases \cup (IF k = 5 THEN {} ELSE BigGases)} : k \in 1..Len(Progs)}
 Inv == IF Tier = "thorough" THEN InvAll ELSE Pick(InvAll, 9)
 
-Cases == Beh \cup Part \cup Inv
+\* ---- fixed scripts present in every run: each call's main branches on one machine's life
+Pg(n, p, c, r) == Op("pages", A(n), A(p), A(c), A(r))
+Pk(n, s, d, z) == Op("poke", A(n), A(s), A(d), A(z))
+Pe(n, d, s, z) == Op("peek", A(n), A(d), A(s), A(z))
+Iv(n) == Op("invoke", A(n), A(BufAt), U64Zero, U64Zero)
+Ex(n) == Op("expunge", A(n), U64Zero, U64Zero, U64Zero)
+Must == {[tag |-> "must", ops |-> s] : s \in {
+  \* read-only inner pages: poke refused (OOB), peek allowed; then writable keeping contents, poke, peek, run, resume, remove
+  <<B(4), Pg(0, 16, 2, 1), Pk(0, SrcAt, P16 + 512, 4), Pe(0, DstAt, P16 + 512, 4), Pg(0, 16, 2, 4), Pk(0, SrcAt, P16 + 512, 8),
+    Pe(0, DstAt, P16 + 514, 4), Iv(0), Iv(0), Iv(0), Pe(0, DstAt, P17, 4), Ex(0), Ex(0)>>,
+  \* two machines: identifiers, isolation between them, reuse of the lowest identifier
+  <<B(3), B(4), Pg(1, 16, 2, 2), Pk(1, SrcAt, P16 + 4094, 4), Pe(0, DstAt, P16 + 4094, 4), Pe(1, DstAt, P16 + 4094, 4), Iv(0), Iv(1), Iv(0),
+    Ex(0), B(1), Iv(0), Pg(1, 16, 1, 0), Pe(1, DstAt, P16 + 4094, 4), Pe(1, DstAt, P17, 2), Pg(1, 17, 1, 3), Pg(1, 16, 1, 3), Ex(1), Ex(0)>>,
+  \* a trapping machine panics; a looping one runs out of gas and keeps its counter
+  <<B(5), B(2), Iv(1), Iv(0), Iv(0), Ex(0), Ex(1)>>}}
+Cases == Beh \cup Part \cup Inv \cup Must
 ASSUME ndJsonSerialize(OutFile, <<[def |-> "std", outer |-> [acc |-> << <<16, "R">>, <<17, "W">> >>, data |-> OuterTriples(6)]]>>
                                  \o SetToSeq(Cases))
 ASSUME PrintT(<<"GEN", Cardinality(Beh), Cardinality(Part), Cardinality(Inv)>>)
